@@ -19,6 +19,7 @@ from qv.lib import QHooks, cond_matches
 BYTE = frozenset(range(256))
 CHARS = frozenset(range(-128, 128))      # plain char is signed on this target
 DIGITS = frozenset(range(48, 58))
+CLASSES = [frozenset([0]), DIGITS, frozenset([47]), frozenset(range(1, 47)), frozenset(range(58, 128)), frozenset(range(-128, 0))]
 LENS = [0, 1, 5, 6, 7, 8, 9, 10, 11, 12, 99, 100, 101, 102]
 ALLOWED = {'foop/': [('intd/', 0), ('mess/', 1)], 'todo/': [('intd/', 0), ('todo/', 0)]}
 
@@ -45,16 +46,17 @@ class CleanHooks(QHooks):
         v = E.get(k)
         return next(iter(v)) if v else d
 
-    def materialize(self, E, path):
+    def materialize_split(self, E, path):
         if path.startswith('G:line.s['):
             # long requests exist to exercise the length rule: digit-only id there; every byte
-            # value at every position for the short ones
+            # value at every position for the short ones, as a partition (the state splits per class, so a
+            # local copy of the byte stays correlated with it)
             n = self.g(E, 'G:line.len', 0)
             k = int(path[len('G:line.s['):-1])
             if n > 12 and 6 <= k < n - 1:
-                return DIGITS
-            return CHARS
-        return TOP
+                return [DIGITS]
+            return CLASSES
+        return None
 
     def end_request(self, E, x):
         if self.g(E, '$inreq'):
@@ -123,15 +125,22 @@ class CleanHooks(QHooks):
             (v,) = args[1]
             if isinstance(v, tuple) and v[0] == '&':
                 idp = v[1]
+        st = {'$scan': fs(('ok', off, idp))}
+        if idp:
+            st[idp] = fs(('reqid', off))
         return [Outcome(ret=fs(0), sets={'$scan': fs(0)}, havoc=()),
-                Outcome(ret=fs(1), sets={'$scan': fs(('ok', off, idp))})]
+                Outcome(ret=fs(1), sets=st)]
 
     def prim_fmtqfn(self, E, x, args):
+        from qv.lib import lit_of
         buf = x.args[0].path()
-        lit = x.args[1].string
-        idp = E.canon(x.args[2])
+        lit = lit_of(E, x.args[1])
+        idv = args[2]
+        idtok = next(iter(idv)) if idv is not TOP and len(idv) == 1 else None
         flag = x.args[3].const
-        E.set('$name', fs((buf, lit, flag, idp)))
+        if flag is None and args[3] is not TOP and len(args[3]) == 1:
+            flag = next(iter(args[3]))
+        E.set('$name', fs((buf, lit, flag, idtok)))
         return [Outcome(ret=TOP)]
 
     def prim_unlink(self, E, x, args):
@@ -157,7 +166,7 @@ class CleanHooks(QHooks):
             nm = self.g(E, '$name', None)
             arg = x.args[0].path()
             ok_name = (nm is not None and nm[0] == arg and kw in ALLOWED and (nm[1], nm[2]) in ALLOWED[kw]
-                       and isinstance(sc, tuple) and sc[1] == 5 and nm[3] == sc[2])
+                       and isinstance(sc, tuple) and sc[1] == 5 and nm[3] == ('reqid', 5))
             self.site('unlink-path-is-prefix+validated-id', x, ok_name,
                       'unlink(%s) with name %s under keyword %r, id source %s' % (arg, nm, kw, sc), E)
             # removal order (C02): the k-th successful unlink of a request is the k-th name of the table
